@@ -57,6 +57,10 @@ _DEP = {}
 
 def dependency_holds(fx, dep):
     """Run another property's rules silently and tell whether they hold (used for sites discharged by those rules)."""
+    from .. import core as _c
+
+    if dep in _c._IN_PROGRESS:
+        return True  # being evaluated further up: its own run reports what it finds
     if dep not in _DEP:
         import importlib
 
@@ -65,11 +69,14 @@ def dependency_holds(fx, dep):
         mod = importlib.import_module(f"slx.rules.{dep.lower()}")
         r = core.Report(dep, "quick", 0)
         r.finish = lambda *a, **k: 0
+        core._IN_PROGRESS.add(dep)
         try:
             mod.check(fx, r, "quick")
+            core._IN_PROGRESS.discard(dep)
             known = {k["key"] for k in core.load_known() if k.get("property") == dep and k.get("status") == "finding"}
             _DEP[dep] = not [v for v in r.violations if v["key"] not in known]
         except Exception:
+            core._IN_PROGRESS.discard(dep)
             _DEP[dep] = False
     return _DEP[dep]
 
@@ -82,11 +89,15 @@ def value_size_unbounded_reasons(fx):
     import importlib
 
     reasons = []
+    if "C18" in core._IN_PROGRESS:
+        return []
     mod = importlib.import_module("slx.rules.c18")
     r = core.Report("C18", "quick", 0)
     r.finish = lambda *a, **k: 0
+    core._IN_PROGRESS.add("C18")
     try:
         mod.check(fx, r, "quick")
+        core._IN_PROGRESS.discard("C18")
         known18 = {k["key"] for k in core.load_known() if k.get("property") == "C18" and k.get("status") == "finding"}
         for v in r.violations:
             if v["rule"] == "R18.3" and "|nolimit:" in v["key"]:
@@ -95,6 +106,7 @@ def value_size_unbounded_reasons(fx):
                 # any other break of the size discipline (a child not counted, a new nesting channel, a wrong cull test)
                 reasons.append(("size-discipline:" + v["key"].replace("|", ":"), v["where"], v["msg"]))
     except Exception as e:  # fail closed
+        core._IN_PROGRESS.discard("C18")
         reasons.append(("c18-engine", "-", f"the size-limit audit (C18) crashed: {e}"))
     # is the configured limit capped anywhere between the configuration and the cull test?
     capped = False
